@@ -335,10 +335,26 @@ func (b *rb) collect(v Val, t types.Type, depth int) {
 		b.collectPointee(v, pointeeOfVal(v), depth)
 	case kStruct:
 		st := mustStruct(t)
+		if types.TypeString(t, nil) == "time.Time" && len(v.Fields) >= 2 {
+			b.want(sx("tns", v.Fields[0].S, v.Fields[1].S))
+			return
+		}
 		for i, f := range v.Fields {
 			b.collect(f, st.Field(i).Type(), depth+1)
 		}
 	}
+}
+
+// foreignField: a field the in-package test cannot set (unexported field of
+// a struct type declared in another package).
+func (b *rb) foreignField(t types.Type, f *types.Var) bool {
+	if f.Exported() {
+		return false
+	}
+	if n, ok := t.(*types.Named); ok && n.Obj().Pkg() != nil {
+		return n.Obj().Pkg() != b.pkg
+	}
+	return f.Pkg() != nil && f.Pkg() != b.pkg
 }
 
 func (b *rb) collectPointee(p Val, pt types.Type, depth int) {
@@ -566,9 +582,17 @@ func (b *rb) expr(v Val, t types.Type, depth int) string {
 		return fmt.Sprintf("%s(%s[%d:%d:%d])", b.qual(t), bk, off, off+ln, off+cp)
 	case kStruct:
 		st := mustStruct(t)
+		if types.TypeString(t, nil) == "time.Time" && len(v.Fields) >= 2 {
+			ns, _ := b.intv(sx("tns", v.Fields[0].S, v.Fields[1].S))
+			b.qual(t) // records the import
+			return fmt.Sprintf("time.Unix(0, %d).UTC()", ns)
+		}
 		var fs []string
 		for i, f := range v.Fields {
 			ft := st.Field(i).Type()
+			if b.foreignField(t, st.Field(i)) {
+				continue
+			}
 			switch kindOf(ft) {
 			case kFunc, kIface, kMap, kOpaque:
 				continue
@@ -639,6 +663,9 @@ func (b *rb) pointeeExpr(p Val, pt types.Type, depth int) string {
 		var fs []string
 		for i := 0; i < u.NumFields(); i++ {
 			ft := u.Field(i).Type()
+			if b.foreignField(pt, u.Field(i)) {
+				continue
+			}
 			fp := b.c.fieldAddr(Val{K: kPtr, T: types.NewPointer(pt), Ref: p.Ref, Idx: p.Idx, Root: p.Root, Path: p.Path}, i, types.NewPointer(ft))
 			var fe string
 			switch ft.Underlying().(type) {
